@@ -4,8 +4,13 @@ examples live here; helper lemmas are in `Golib/Proof/C09*.lean`.
 
 Everything the code takes from the standard library is a parameter `P : Prims`
 (`md5`, block cipher, AEAD, CTR keystream, base64, hex).  The theorems hold for EVERY such
-`P` meeting the stated hypotheses (`|md5 x| = 16`, `D k (E k x) = x` on blocks,
-`open (seal p) = some p`, `decode (encode x) = x`): hypotheses, never axioms.  The random
+`P` meeting the stated hypotheses (`|md5 x| = 16` and bytes, `D k (E k x) = x` on 16-BYTE
+blocks under valid byte keys, `open (seal p) = some p` under valid keys, `decode (encode x) = x`
+on BYTE strings): hypotheses, never axioms, and stated so that concrete codecs/ciphers on
+bytes CAN meet them (nothing is asked about lists holding numbers ≥ 256 or invalid keys).
+The `…_concrete` theorems at the end instantiate them with the executable Lean MD5 / AES /
+GCM / base64 / hex that the oracle runs, using the facts proved about those instances in
+`Proof/C08AesInv.lean`, `Proof/C08GcmInv.lean`, `Proof/C09EncInv.lean`.  The random
 salt is an input: every statement is `∀ salt` (of 8 bytes).  The model mirrors the REPAIRED
 `DecryptStreamTo` (`io.ReadFull`, defect F5); the refutation of the code as found is in
 `Golib/Findings/C09.lean`.
@@ -15,6 +20,10 @@ Not theorems (labelled partial in the manifest): tamper evidence of the GCM enve
 the real code.
 -/
 import Golib.Proof.C09Top
+import Golib.Proof.C09EncInv
+import Golib.Proof.C08AesInv
+import Golib.Proof.C08GcmInv
+import Golib.Model.C09
 import Golib.Gen.FactsC09
 
 namespace Golib.C09
@@ -37,7 +46,7 @@ AES-256-CBC(EVP key, EVP IV, PKCS#7-padded plaintext)` (what `openssl enc -aes-2
 writes); `GCMEncrypt` = hex of `"Salted__" ‖ salt ‖ Seal(EVP key, first 12 IV bytes, plaintext, AD)`;
 `EncryptStreamTo` writes `"Salted__" ‖ salt ‖ CTR(plaintext)` whatever the chunking of its source. -/
 theorem c09_wire_format (P : Prims) (hmd : ∀ x, (P.md5 x).length = 16)
-    (hseal : ∀ k n p a, (P.A.sealF k n p a).length = p.length + 16)
+    (hseal : ∀ k, keyOK k = true → ∀ n p a, (P.A.sealF k n p a).length = p.length + 16)
     (salt pt secret ad : Bytes) (hs : salt.length = 8) (src : Src) (hsrc : src.good) (hd : src.data = pt) :
     encrypt P salt pt secret = .ok (P.b64enc (fixedSaltHeader ++ salt ++
       cbcEncrypt (P.C.E (evpKey P.md5 secret salt)) (evpIV P.md5 secret salt)
@@ -55,18 +64,25 @@ theorem c09_wire_format (P : Prims) (hmd : ∀ x, (P.md5 x).length = 16)
 /-- `Decrypt(Encrypt(p, s), s) = p` for every plaintext, secret and salt; also through the
 raw `SaltBySecretCBC*` pair with the ciphertext buffer reused or not. -/
 theorem c09_cbc_envelope_roundtrip (P : Prims) (hmd : ∀ x, (P.md5 x).length = 16)
-    (hE : ∀ k x, x.length = 16 → (P.C.E k x).length = 16)
-    (hDE : ∀ k x, x.length = 16 → P.C.D k (P.C.E k x) = x)
-    (hb64 : ∀ x, P.b64dec (P.b64enc x) = some x)
-    (salt pt secret : Bytes) (hs : salt.length = 8) (reuse : Bool) :
+    (hmdb : ∀ x, IsBytes (P.md5 x))
+    (hE : ∀ k, keyOK k = true → IsBytes k → ∀ x, x.length = 16 → IsBytes x →
+      (P.C.E k x).length = 16 ∧ IsBytes (P.C.E k x))
+    (hDE : ∀ k, keyOK k = true → IsBytes k → ∀ x, x.length = 16 → IsBytes x → P.C.D k (P.C.E k x) = x)
+    (hb64 : ∀ x, IsBytes x → P.b64dec (P.b64enc x) = some x)
+    (salt pt secret : Bytes) (hs : salt.length = 8) (hsb : IsBytes salt) (hptb : IsBytes pt)
+    (reuse : Bool) :
     (∃ m, encrypt P salt pt secret = .ok m ∧ decrypt P m secret = .ok pt) ∧
     (∃ c, saltBySecretCBCEncrypt P salt pt secret = .ok c ∧
       saltBySecretCBCDecrypt P c secret reuse = .ok pt) := by
   have henc := saltBySecretCBCEncrypt_spec P hmd salt pt secret hs
-  generalize hbody : cbcEncrypt (P.C.E (evpKey P.md5 secret salt)) (evpIV P.md5 secret salt) (padded pt) = body at henc
-  have hbl : body.length = 16 * (pt.length / 16 + 1) := by
-    rw [← hbody, cbcEncrypt_length _ (hE _) _ _ _ (evpIV_length P.md5 hmd secret salt) (padded_blocks pt),
-      padded_blocks]
+  have hkok := evpKey_ok P.md5 hmd secret salt
+  have hkb := evpKey_isBytes P.md5 hmdb secret salt
+  have hivb := evpIV_isBytes P.md5 hmdb secret salt
+  have hbody := cbcEncrypt_lengthB _ (hE _ hkok hkb) _ _ _ (evpIV_length P.md5 hmd secret salt) hivb
+    (padded_blocks pt) (padded_isBytes pt hptb)
+  generalize hbodyeq : cbcEncrypt (P.C.E (evpKey P.md5 secret salt)) (evpIV P.md5 secret salt) (padded pt) = body at henc hbody
+  have hbl : body.length = 16 * (pt.length / 16 + 1) := by rw [hbody.1, padded_blocks]
+  have hbb : IsBytes body := hbody.2
   -- decrypting the envelope
   have hdec : ∀ reuse, saltBySecretCBCDecrypt P (fixedSaltHeader ++ salt ++ body) secret reuse = .ok pt := by
     intro reuse
@@ -97,10 +113,11 @@ theorem c09_cbc_envelope_roundtrip (P : Prims) (hmd : ∀ x, (P.md5 x).length = 
       cases reuse <;> simp at hlay
       · rw [← hlay] at hd; injection hd with hd; rw [← hd, encLen_eq]; simp; omega
       · rw [← hlay] at hd; cases hd
-    obtain ⟨ct, he, hct, _, d, hdd, htake⟩ := main_cbc_roundtrip P.C (evpKey P.md5 secret salt)
-      (evpIV P.md5 secret salt) pt (List.replicate (cbcEncryptLen pt.length) 0) lay hE hDE
-      (evpKey_ok P.md5 hmd secret salt) (evpIV_length P.md5 hmd secret salt) (by simp) hlayl
-    have hcb : ct = body := by rw [hct, ← hbody]; rfl
+    obtain ⟨ct, he, hct, _, _, d, hdd, htake⟩ := main_cbc_roundtrip P.C (evpKey P.md5 secret salt)
+      (evpIV P.md5 secret salt) pt (List.replicate (cbcEncryptLen pt.length) 0) lay
+      (hE _ hkok hkb) (hDE _ hkok hkb) hkok (evpIV_length P.md5 hmd secret salt) hivb hptb
+      (by simp) hlayl
+    have hcb : ct = body := by rw [hct, ← hbodyeq]; rfl
     rw [hcb] at hdd
     rw [hdd]
     simp only []
@@ -110,39 +127,51 @@ theorem c09_cbc_envelope_roundtrip (P : Prims) (hmd : ∀ x, (P.md5 x).length = 
     rw [sliceTo_nat d pt.length hle, htake]
   refine ⟨⟨_, by unfold encrypt; rw [henc], ?_⟩, ⟨_, henc, hdec reuse⟩⟩
   unfold decrypt
-  rw [hb64]
+  have hallb : IsBytes (fixedSaltHeader ++ salt ++ body) :=
+    isBytes_append.mpr ⟨isBytes_append.mpr ⟨header_isBytes, hsb⟩, hbb⟩
+  rw [hb64 _ hallb]
   exact hdec true
 
 /-- `GCMDecrypt(GCMEncrypt(p, s, a), s, a) = p` for every plaintext, secret, additional data
 and salt (raw pair included, buffer reused or not), and whatever `Open` rejects is an error. -/
 theorem c09_gcm_envelope_roundtrip (P : Prims) (hmd : ∀ x, (P.md5 x).length = 16)
-    (hseal : ∀ k n p a, (P.A.sealF k n p a).length = p.length + 16)
-    (hopen : ∀ k n p a, P.A.openF k n (P.A.sealF k n p a) a = some p)
-    (hopenlen : ∀ k n c a p, P.A.openF k n c a = some p → c.length = p.length + 16)
-    (hhex : ∀ x, P.hexdec (P.hexenc x) = some x)
-    (salt pt secret ad : Bytes) (hs : salt.length = 8) (reuse : Bool) :
+    (hmdb : ∀ x, IsBytes (P.md5 x))
+    (hseal : ∀ k, keyOK k = true → ∀ n p a, (P.A.sealF k n p a).length = p.length + 16)
+    (hsealb : ∀ k, keyOK k = true → IsBytes k → ∀ n p a, IsBytes n → IsBytes p →
+      IsBytes (P.A.sealF k n p a))
+    (hopen : ∀ k, keyOK k = true → ∀ n p a, P.A.openF k n (P.A.sealF k n p a) a = some p)
+    (hopenlen : ∀ k, keyOK k = true → ∀ n c a p, P.A.openF k n c a = some p → c.length = p.length + 16)
+    (hhex : ∀ x, IsBytes x → P.hexdec (P.hexenc x) = some x)
+    (salt pt secret ad : Bytes) (hs : salt.length = 8) (hsb : IsBytes salt) (hptb : IsBytes pt)
+    (reuse : Bool) :
     (∃ m, gcmEncrypt P salt pt secret ad = .ok m ∧ gcmDecrypt P m secret ad = .ok pt) ∧
     (∃ c, saltBySecretGCMEncrypt P salt pt secret ad = .ok c ∧
       saltBySecretGCMDecrypt P c secret ad reuse = .ok pt) := by
   have henc := saltBySecretGCMEncrypt_spec P hmd hseal salt pt secret ad hs
-  generalize hbody : P.A.sealF (evpKey P.md5 secret salt) (evpNonce P.md5 secret salt) pt ad = body at henc
+  have hkok := evpKey_ok P.md5 hmd secret salt
+  have hbodyb : IsBytes (P.A.sealF (evpKey P.md5 secret salt) (evpNonce P.md5 secret salt) pt ad) :=
+    hsealb _ hkok (evpKey_isBytes P.md5 hmdb secret salt) _ _ _
+      (isBytes_take 12 (evpIV_isBytes P.md5 hmdb secret salt)) hptb
+  generalize hbody : P.A.sealF (evpKey P.md5 secret salt) (evpNonce P.md5 secret salt) pt ad = body at henc hbodyb
   have hdec : ∀ reuse, saltBySecretGCMDecrypt P (fixedSaltHeader ++ salt ++ body) secret ad reuse = .ok pt := by
     intro reuse
     obtain ⟨p1, p2, p3⟩ := envelope_parts salt body hs
     have h8 := header_length
     rw [saltBySecretGCMDecrypt_eq P hmd hopenlen _ secret ad reuse (by simp [h8, hs]; omega) p1,
-      p2, p3, ← hbody, hopen]
+      p2, p3, ← hbody, hopen _ hkok]
   refine ⟨⟨_, by unfold gcmEncrypt; rw [henc], ?_⟩, ⟨_, henc, hdec reuse⟩⟩
   unfold gcmDecrypt
-  rw [hhex]
+  have hallb : IsBytes (fixedSaltHeader ++ salt ++ body) :=
+    isBytes_append.mpr ⟨isBytes_append.mpr ⟨header_isBytes, hsb⟩, hbodyb⟩
+  rw [hhex _ hallb]
   exact hdec true
 
 /-- Every decryption entry point returns a value or an `error` on ARBITRARY bytes — never a
 panic: all slicing is guarded by the length / magic checks in the coded order.  (Stream mode:
 for every reader and writer, failing ones included, in either header-read mode.) -/
 theorem c09_decrypt_total (P : Prims) (hmd : ∀ x, (P.md5 x).length = 16)
-    (hD : ∀ k x, x.length = 16 → (P.C.D k x).length = 16)
-    (hopenlen : ∀ k n c a p, P.A.openF k n c a = some p → c.length = p.length + 16)
+    (hD : ∀ k, keyOK k = true → ∀ x, x.length = 16 → (P.C.D k x).length = 16)
+    (hopenlen : ∀ k, keyOK k = true → ∀ n c a p, P.A.openF k n c a = some p → c.length = p.length + 16)
     (input secret ad : Bytes) (reuse : Bool) (mode : HeaderRead) (r : Reader) (out : Writer) :
     decrypt P input secret ≠ .panic ∧
     saltBySecretCBCDecrypt P input secret reuse ≠ .panic ∧
@@ -185,6 +214,69 @@ theorem c09_stream_roundtrip (P : Prims) (hmd : ∀ x, (P.md5 x).length = 16)
   obtain ⟨w', hd', hc'⟩ := decryptStreamTo_spec P hmd secret salt
     (ctrXor (streamKS P secret salt) 0 src.data) hs r (by rw [hr, hc]) hf
   exact ⟨w', hd', by rw [hc', ctrXor_invol, hd]⟩
+
+/-! ### The executable instance meets the hypotheses — so the statements above hold
+UNCONDITIONALLY for the model the oracle runs (`primsFor …` of `Model/C09.lean`: Lean MD5, AES,
+AES-GCM, base64 StdEncoding as Go decodes it, the hex codec of `strz/std_hex.go`).  That these
+are the same FUNCTIONS as the Go standard library's is not proved: it is tested (RFC 1321 /
+FIPS-197 / GCM-spec / RFC 4648 vectors at build time, every envelope of every run). -/
+
+/-- every hypothesis of the parametric theorems, for the oracle's own primitives -/
+theorem c09_instance_meets_hypotheses (s0 s1 : Bytes) (n : Nat) :
+    let P := primsFor s0 s1 n
+    (∀ x, (P.md5 x).length = 16) ∧ (∀ x, IsBytes (P.md5 x)) ∧
+    (∀ k, keyOK k = true → IsBytes k → ∀ x, x.length = 16 → IsBytes x →
+      (P.C.E k x).length = 16 ∧ IsBytes (P.C.E k x)) ∧
+    (∀ k, keyOK k = true → IsBytes k → ∀ x, x.length = 16 → IsBytes x → P.C.D k (P.C.E k x) = x) ∧
+    (∀ k, keyOK k = true → ∀ x, x.length = 16 → (P.C.D k x).length = 16) ∧
+    (∀ k, keyOK k = true → ∀ n p a, (P.A.sealF k n p a).length = p.length + 16) ∧
+    (∀ k, keyOK k = true → IsBytes k → ∀ n p a, IsBytes n → IsBytes p → IsBytes (P.A.sealF k n p a)) ∧
+    (∀ k, keyOK k = true → ∀ n p a, P.A.openF k n (P.A.sealF k n p a) a = some p) ∧
+    (∀ k, keyOK k = true → ∀ n c a p, P.A.openF k n c a = some p → c.length = p.length + 16) ∧
+    (∀ x, IsBytes x → P.b64dec (P.b64enc x) = some x) ∧
+    (∀ x, IsBytes x → P.hexdec (P.hexenc x) = some x) :=
+  ⟨md5_length, md5_bytes,
+   fun k hk hkb x hx hxb => aes_encrypt_block k x hk hkb hx hxb,
+   fun k hk hkb x hx hxb => aes_decrypt_encrypt k x hk hkb hx hxb,
+   fun k hk x _ => aes_decrypt_length k x hk,
+   fun k hk n p a => gcm_seal_length k n p a hk,
+   fun k hk hkb n p a hn hp => gcm_seal_bytes k n p a hk hkb hn hp,
+   fun k hk n p a => gcm_open_seal k n p a hk,
+   fun k hk n c a p h => gcm_open_length k n c a p hk h,
+   b64_decode_encode, hex_decode_encode⟩
+
+/-- `Decrypt(Encrypt(p, s), s) = p` and `GCMDecrypt(GCMEncrypt(p, s, a), s, a) = p` for the
+oracle's own model, no hypothesis about any primitive left: every plaintext, secret, additional
+data (byte strings) and every 8-byte salt; raw `SaltBySecret*` pairs with the buffer reused or not. -/
+theorem c09_envelope_roundtrip_concrete (s0 s1 : Bytes) (n : Nat)
+    (salt pt secret ad : Bytes) (hs : salt.length = 8) (hsb : IsBytes salt) (hptb : IsBytes pt)
+    (reuse : Bool) :
+    let P := primsFor s0 s1 n
+    (∃ m, encrypt P salt pt secret = .ok m ∧ decrypt P m secret = .ok pt) ∧
+    (∃ c, saltBySecretCBCEncrypt P salt pt secret = .ok c ∧
+      saltBySecretCBCDecrypt P c secret reuse = .ok pt) ∧
+    (∃ m, gcmEncrypt P salt pt secret ad = .ok m ∧ gcmDecrypt P m secret ad = .ok pt) ∧
+    (∃ c, saltBySecretGCMEncrypt P salt pt secret ad = .ok c ∧
+      saltBySecretGCMDecrypt P c secret ad reuse = .ok pt) := by
+  intro P
+  obtain ⟨h1, h2, h3, h4, _, h6, h7, h8, h9, h10, h11⟩ := c09_instance_meets_hypotheses s0 s1 n
+  have hc := c09_cbc_envelope_roundtrip P h1 h2 h3 h4 h10 salt pt secret hs hsb hptb reuse
+  have hg := c09_gcm_envelope_roundtrip P h1 h2 h6 h7 h8 h9 h11 salt pt secret ad hs hsb hptb reuse
+  exact ⟨hc.1, hc.2, hg.1, hg.2⟩
+
+/-- no decryption entry point of the oracle's own model panics, on ANY input (lists of
+arbitrary numbers included) -/
+theorem c09_decrypt_total_concrete (s0 s1 : Bytes) (n : Nat)
+    (input secret ad : Bytes) (reuse : Bool) (mode : HeaderRead) (r : Reader) (out : Writer) :
+    let P := primsFor s0 s1 n
+    decrypt P input secret ≠ .panic ∧
+    saltBySecretCBCDecrypt P input secret reuse ≠ .panic ∧
+    gcmDecrypt P input secret ad ≠ .panic ∧
+    saltBySecretGCMDecrypt P input secret ad reuse ≠ .panic ∧
+    decryptStreamTo P mode secret r out ≠ .panic := by
+  intro P
+  obtain ⟨h1, _, _, _, h5, _, _, _, h9, _, _⟩ := c09_instance_meets_hypotheses s0 s1 n
+  exact c09_decrypt_total P h1 h5 h9 input secret ad reuse mode r out
 
 /-- The facts the model hard-codes, against `Golib/Gen/FactsC09.lean`, which the go/ast
 extractor regenerates from `cryptz/crypt.go` on every run — above all WHICH call fills the
